@@ -2,6 +2,9 @@
 import json, os, sys, time
 
 VERIF = os.path.dirname(os.path.dirname(os.path.abspath(__file__)))
+# runs against a scratch copy (VERIF_REPO set by the developer tools) never touch the committed evidence
+SCRATCH = os.environ.get('VERIF_REPO', '/repo') != '/repo'
+OUTDIR = os.path.join(VERIF, '.cache', 'scratch-out') if SCRATCH else VERIF
 
 
 class Report:
@@ -73,9 +76,9 @@ class Report:
         rc = 0
         if new:
             rc = 1
-            os.makedirs(os.path.join(VERIF, 'replay'), exist_ok=True)
+            os.makedirs(os.path.join(OUTDIR, 'replay'), exist_ok=True)
             for n, v in enumerate(new):
-                p = os.path.join(VERIF, 'replay', '%s-%d.json' % (self.pid, n))
+                p = os.path.join(OUTDIR, 'replay', '%s-%d.json' % (self.pid, n))
                 json.dump(v, open(p, 'w'), indent=1)
                 print('%s: rule %s instance %s: %s' % (v['where'], v['rule'], v['instance'], v['detail']))
                 for step in v['path'][:40]:
@@ -104,8 +107,8 @@ class Report:
         cov.update({k: v for k, v in self.extra.items() if k != 'exhaustive'})
         ev = {'property_id': self.pid, 'tier': self.tier, 'seed': self.seed, 'level': self.level, 'coverage': cov,
               'assumptions': self.assumptions, 'wall_s': round(time.time() - self.t0, 2), 'violations': len(new)}
-        os.makedirs(os.path.join(VERIF, 'evidence'), exist_ok=True)
-        json.dump(ev, open(os.path.join(VERIF, 'evidence', self.pid + '.json'), 'w'), indent=1)
+        os.makedirs(os.path.join(OUTDIR, 'evidence'), exist_ok=True)
+        json.dump(ev, open(os.path.join(OUTDIR, 'evidence', self.pid + '.json'), 'w'), indent=1)
         for rid, r in self.rules.items():
             print('[%s] %-10s %3d/%-3d instances hold  %s' % (self.pid, rid, r['ok'], r['instances'], r['desc'][:110]))
         print('[%s] %d obligations, %d discharged, %d violation(s), %d known finding(s), %.1fs' % (self.pid, nob, nok, len(new), len(self.violations) - len(new), time.time() - self.t0))
